@@ -79,7 +79,7 @@ def content_eq(ex, W, c1, c2):
 
 class CreateNodeVariant(Variant):
     """table with m stored entries; the requested content is arbitrary (it may equal a stored one)"""
-    prop_ids = ("C04", "C15")
+    prop_ids = ("C04", "C15", "C03")
     qualname = MGR + ".create_node"
 
     def __init__(self, world, m, nargs):
@@ -121,6 +121,10 @@ class CreateNodeVariant(Variant):
         hit = [content_eq(ex, W, self.req, c) for c, _ in self.stored]
         anyhit = z3.Or(hit) if hit else z3.BoolVal(False)
         goals = []
+        if kind == "return":
+            # whatever the table held: a node is only handed out after the typing rules accepted it in this call (the table
+            # may hold a node whose construction was rejected earlier - it is registered before it is checked)
+            goals.append(("C03:returned-node-passed-the-type-check", z3.BoolVal(ex.ghost.get("type_checked", 0) >= 1)))
         # which case are we in?  (decided so that the structure of the final table can be compared)
         case = None
         for j, h in enumerate(hit):
@@ -146,7 +150,13 @@ class CreateNodeVariant(Variant):
         goals.append(("node-has-exactly-the-given-content", content_eq(ex, W, n.fields["_content"], self.req)))
         goals.append(("fresh-id", z3.And(BI.to_int(n.fields["_node_id"]) == self.next0, nxt == self.next0 + 1)))
         ok = len(table) == self.m + 1 and all(table[j][1] is self.stored[j][1] for j in range(self.m)) and table[-1][1] is n
-        goals.append(("table-extended-by-exactly-this-entry", z3.BoolVal(bool(ok))))
+        if kind == "raise":
+            # a rejected construction: the property does not say whether the rejected node stays registered (it is re-checked
+            # when met again) or is removed; the other entries are untouched either way
+            same = len(table) == self.m and all(table[j][1] is self.stored[j][1] for j in range(self.m))
+            goals.append(("rejected-construction-touches-no-other-entry", z3.BoolVal(bool(ok or same))))
+        else:
+            goals.append(("table-extended-by-exactly-this-entry", z3.BoolVal(bool(ok))))
         if ok:
             goals.append(("stored-under-its-content", content_eq(ex, W, table[-1][0], self.req)))
         if kind == "return":
@@ -375,11 +385,14 @@ class SymbolTableVariant(Variant):
             ex.assume(self.g0 >= 0)
             mgr.fields["_fresh_guess"] = self.g0
 
+            from pyvc import loops as L
+            CNT = (L.stored_names(L.loop_node(W.repo, self.qualname, 0)) or ["count"])[0]      # the counter: the local the loop assigns
+
             def havoc(exx, fr):
-                fr.locs["count"] = exx.fresh("count", I)
+                fr.locs[CNT] = exx.fresh("count", I)
 
             def inv(exx, fr):
-                return [("count-never-moves-back", BI.to_int(fr.locs["count"]) >= self.g0)]
+                return [("count-never-moves-back", BI.to_int(fr.locs[CNT]) >= self.g0)]
             W.loop_contracts[(self.qualname, 0)] = LoopInvariant(havoc, inv, name="search")
             # Symbol(name, type) for a name that is not in the table: creates and registers it (proved below)
             return fn, [self.ty], {}
@@ -475,7 +488,7 @@ class ConstCacheVariant(Variant):
         kind, r = outcome
         W = self.world
         if self.argkind == "float":
-            return [("C14:wrong-kind-rejected-whatever-the-cache-holds", z3.BoolVal(kind == "raise"))]
+            return [("wrong-kind-rejected-whatever-the-cache-holds", z3.BoolVal(kind == "raise"))]
         if kind == "raise" or not is_node(r):
             return [("no-exception", z3.BoolVal(False))]
         Kop = S.INT_CONSTANT if self.ctor == "Int" else S.STR_CONSTANT
